@@ -363,6 +363,122 @@ func keysU32(m map[uint32]bool) []uint32 {
 	return k
 }
 
+// runC11Multi: several peers on one state machine, each from another local
+// endpoint and with other applications; every CEA must carry that connection's
+// local address, and a connection's metadata must stay what its own CER said
+// after other peers have shaken hands.
+func runC11Multi(c *ev.Case, ctx *lib.Ctx, order []int) {
+	sig := func(op string) ev.Sig { return ev.Sig{"op": op, "suite": "several-connections"} }
+	settings := &sm.Settings{OriginHost: "srv.local", OriginRealm: "realm.local", VendorID: 13, ProductName: "verif"}
+	machine := sm.New(settings)
+	type seen struct {
+		host string
+		apps []uint32
+	}
+	var mu sync.Mutex
+	probes := map[string][]seen{}
+	machine.HandleIdx(diam.CommandIndex{AppID: 4, Code: 272, Request: true}, diam.HandlerFunc(func(dc diam.Conn, m *diam.Message) {
+		meta, ok := smpeer.FromContext(dc.Context())
+		mu.Lock()
+		defer mu.Unlock()
+		if ok {
+			probes[dc.RemoteAddr().String()] = append(probes[dc.RemoteAddr().String()], seen{string(meta.OriginHost), append([]uint32(nil), meta.Applications...)})
+		}
+	}))
+	ln := memnet.NewListener()
+	srv := &diam.Server{Handler: machine, Dict: ctx.Parser}
+	go srv.Serve(ln)
+	type peerT struct {
+		local  string
+		ip     []byte
+		avp    *refcodec.Node
+		want   []uint32
+		accept bool
+	}
+	all := []peerT{
+		{"198.51.100.7:3868", []byte{0, 1, 198, 51, 100, 7}, peer.U32(peer.AuthApp, 4), []uint32{4}, true},
+		{"[2001:db8::1]:3868", append([]byte{0, 2}, net.ParseIP("2001:db8::1")...), peer.U32(peer.AcctApp, 3), []uint32{3}, true},
+		{"203.0.113.9:3868", []byte{0, 1, 203, 0, 113, 9}, peer.U32(peer.AuthApp, 999), nil, false},
+		{"192.0.2.77:3868", []byte{0, 1, 192, 0, 2, 77}, peer.Group(peer.VSApp, peer.U32(peer.VendorID, 10415), peer.U32(peer.AuthApp, 16777251)), []uint32{16777251}, true},
+	}
+	conns := map[int]*memnet.Conn{}
+	defer func() {
+		for _, mc := range conns {
+			mc.FeedEOF()
+		}
+		ln.Close()
+		synctest.Wait()
+	}()
+	probe := peer.Msg(0xC0, 272, 4, 77, 78, peer.Str(peer.SessionID, refcodec.UTF8String, "s;1"))
+	check := func(stage string) bool {
+		for i, mc := range conns {
+			p := all[i]
+			if !p.accept {
+				continue
+			}
+			mu.Lock()
+			before := len(probes[mc.Remote.String()])
+			mu.Unlock()
+			mc.Feed(probe)
+			synctest.Wait()
+			mu.Lock()
+			ps := probes[mc.Remote.String()]
+			mu.Unlock()
+			if len(ps) != before+1 {
+				c.Fail(sig("no-metadata-after-success"), nil, nil, "%s: the handler did not see metadata on connection %d", stage, i)
+				return false
+			}
+			last := ps[len(ps)-1]
+			got := map[uint32]bool{}
+			for _, a := range last.apps {
+				got[a] = true
+			}
+			want := map[uint32]bool{}
+			for _, a := range p.want {
+				want[a] = true
+			}
+			if last.host != fmt.Sprintf("client%d.example", i) || fmt.Sprint(keysU32(got)) != fmt.Sprint(keysU32(want)) {
+				c.Fail(sig("metadata"), nil, nil, "%s: connection %d (Origin-Host client%d.example, applications %v) now has metadata host %q applications %v (handshake order %v)", stage, i, i, keysU32(want), last.host, keysU32(got), order)
+				return false
+			}
+		}
+		return true
+	}
+	for step, i := range order {
+		p := all[i]
+		mc := memnet.NewConn()
+		mc.Local = memnet.Addr{Net: "tcp", Str: p.local}
+		mc.Remote = memnet.Addr{Net: "tcp", Str: fmt.Sprintf("10.9.9.%d:1000", i+1)}
+		conns[i] = mc
+		ln.Offer(mc)
+		avps := []*refcodec.Node{peer.Str(peer.OriginHost, refcodec.DiameterIdentity, fmt.Sprintf("client%d.example", i)), peer.Str(peer.OriginRealm, refcodec.DiameterIdentity, "example"),
+			peer.Addr4(peer.HostIP, 10, 9, 9, byte(i+1)), peer.U32(peer.VendorID, 99), peer.Str(peer.ProductName, refcodec.UTF8String, "peer"), p.avp}
+		mc.Feed(peer.Msg(0x80, peer.CodeCE, 0, uint32(100+i), uint32(200+i), avps...))
+		synctest.Wait()
+		msgs, _ := peer.SplitMessages(mc.Written())
+		if len(msgs) != 1 {
+			c.Fail(sig("cea-count"), nil, nil, "connection %d: %d messages in reply to its CER", i, len(msgs))
+			return
+		}
+		rc := peer.FindU32(msgs[0], peer.ResultCode)
+		if len(rc) != 1 || (rc[0] == 2001) != p.accept {
+			c.Fail(sig("outcome"), msgs[0], nil, "connection %d: Result-Code %v, expected accept=%v", i, rc, p.accept)
+			return
+		}
+		if got := peer.Find(msgs[0], peer.HostIP); len(got) != 1 || !bytes.Equal(got[0], p.ip) {
+			c.Fail(sig("cea-host-ip"), msgs[0], nil, "connection %d (local endpoint %s, handshake number %d on this state machine): CEA Host-IP-Address %x, expected %x", i, p.local, step+1, got, p.ip)
+			return
+		}
+		if !check(fmt.Sprintf("after handshake %d (connection %d)", step+1, i)) {
+			return
+		}
+		c.Event("cers", 1)
+	}
+	c.Event("multi_connection_scenarios", 1)
+	c.Event("accepted", 1)
+	c.Event("rejected", 1)
+}
+
 func TestC11(t *testing.T) {
 	rec := ev.Open(t, "C11")
 	defer rec.Close()
@@ -402,6 +518,16 @@ func TestC11(t *testing.T) {
 		}
 	})
 	rec.Exhaustive("exhaustive")
+	// several connections on one state machine, in every order
+	orders := permutations(4)
+	rec.Suite("several-connections", len(orders)*rec.N(2, 20), func(c *ev.Case) {
+		o := orders[c.I%len(orders)]
+		c.Class("several-connections/first=%d", o[0])
+		leak := runBubbleWD(t, rec, c, 60*time.Second, func() { runC11Multi(c, ctx, o) })
+		if leak != "" && !c.Failed() {
+			c.Fail(ev.Sig{"op": "bubble-leak"}, nil, nil, "goroutines left blocked after the scenario: %s", leak)
+		}
+	})
 	// random multisets up to 12
 	rec.Suite("random", rec.N(2000, 100000), func(c *ev.Case) {
 		r := c.R
